@@ -10,6 +10,7 @@ import (
 	"encoding/json"
 	"fmt"
 	"github.com/libp2p/go-libp2p/core/crypto"
+	mh "github.com/multiformats/go-multihash"
 	"sort"
 	"strings"
 	"sync"
@@ -93,6 +94,22 @@ func faultValue(name string) interface{} {
 		// a well-formed public key of another algorithm (or of the right one) in libp2p's protobuf envelope, hex-encoded
 		// like the genuine raw key: something a key parser with a fallback would accept
 		return hex.EncodeToString(envelopedKey(name))
+	case "tinylink", "tinylinklist", "tinylink0":
+		// a valid identifier whose text form is shorter than any hash: an identity multihash over a few inline bytes
+		// ("bafyqaapw" is 9 characters; code that abbreviates identifiers for messages assumes 46 or 59)
+		inline := []byte{0xf6}
+		if name == "tinylink0" {
+			inline = []byte{}
+		}
+		h, err := mh.Sum(inline, mh.IDENTITY, -1)
+		if err != nil {
+			panic(err)
+		}
+		c := cid.NewCidV1(cid.DagCBOR, h)
+		if name == "tinylinklist" {
+			return []interface{}{link42(c)}
+		}
+		return link42(c)
 	case "dupheads": // the genuine head listed twice
 		c12Init()
 		return []interface{}{link42(c12Head), link42(c12Head)}
@@ -130,7 +147,8 @@ func faultNames() []string {
 	}
 	return append(n, "link", "badlink", "emptylink", "linklist", "badlinklist", "nulllist", "textlist", "b64", "b64n24", "b64n23", "b64n25", "b64long", "b64empty",
 		"cut0", "cut1", "cut2", "cut3", "cutlast", "grow1", "dupheads", "dupheads3", "headsplus",
-		"key-ed25519-envelope", "key-rsa-envelope", "key-ecdsa-envelope", "key-secp-envelope")
+		"key-ed25519-envelope", "key-rsa-envelope", "key-ecdsa-envelope", "key-secp-envelope",
+		"tinylink", "tinylinklist", "tinylink0")
 }
 
 // genericEntry mirrors the CBOR schema of a v2 entry as a generic value tree.
